@@ -94,16 +94,45 @@ FiredDev(env) == Run(env).dev
 
 NonCmtObs(obs) == LET o == SelectSeq(obs.toks, LAMBDA x : ~x.c) IN [i \in 1..Len(o) |-> o[i].t]
 
+ObsToks(obs) == [i \in 1..Len(obs.toks) |-> <<obs.toks[i].t, obs.toks[i].c>>]
+
+\* C18 as a relation between the two observed runs: same non-comment tokens, same table, same
+\* error; no comment in the stripped output
+JudgeStripRel(o1, o2) ==
+  IF o1.outcome # o2.outcome THEN <<"strip_comments changes the outcome", o1.outcome, o2.outcome>>
+  ELSE IF o1.outcome = "err" THEN (IF o1.err # o2.err THEN <<"strip_comments changes the error">> ELSE <<>>)
+  ELSE IF o1.outcome # "ok" THEN <<"outcome is not Ok or a structured Error", o1.outcome>>
+  ELSE (IF NonCmtObs(o1) # NonCmtObs(o2) THEN <<"strip_comments changes the non-comment tokens">> ELSE <<>>)
+       \o (IF ObsDefSet(o1) # ObsDefSet(o2) THEN <<"strip_comments changes the define table">> ELSE <<>>)
+       \o (IF \E i \in 1..Len(o2.toks) : o2.toks[i].c THEN <<"comment left in the stripped output">> ELSE <<>>)
+
+\* C11: obs = file A, obs2 = file B run with the table returned for A, obs3 = A \o B
+JudgeConcat(oa, ob, oab) ==
+  IF oa.outcome \notin {"ok", "err"} \/ ob.outcome \notin {"ok", "err"} \/ oab.outcome \notin {"ok", "err"}
+    THEN <<"outcome is not Ok or a structured Error">>
+  ELSE IF oa.outcome = "err" THEN (IF oab.outcome # "err" \/ oab.err # oa.err THEN <<"first file fails but the concatenation does not fail the same way">> ELSE <<>>)
+  ELSE IF ob.outcome = "err" THEN (IF oab.outcome # "err" \/ oab.err # ob.err THEN <<"second file fails with the first one's table but the concatenation does not fail the same way", ToString(ob.err), ToString(oab.err)>> ELSE <<>>)
+  ELSE IF oab.outcome # "ok" THEN <<"concatenation fails although both files succeed one after the other", ToString(oab.err)>>
+  ELSE (IF ObsToks(oab) # ObsToks(oa) \o ObsToks(ob) THEN <<"text of the concatenation differs from first \\o second">> ELSE <<>>)
+       \o (IF ObsDefSet(oab) # ObsDefSet(ob) THEN <<"final define table differs", ToString(ObsDefSet(oab) \ ObsDefSet(ob)), ToString(ObsDefSet(ob) \ ObsDefSet(oab))>> ELSE <<>>)
+
+\* C06 (second half): obs2 = the run over obs's output text with the same initial defines
+JudgeFix(o1, o2) ==
+  IF o1.outcome # "ok" THEN <<>>
+  ELSE IF o2.outcome # "ok" THEN <<"re-preprocessing the output fails", o2.outcome, ToString(o2.err)>>
+  ELSE IF ObsToks(o1) # ObsToks(o2) THEN <<"re-preprocessing the output changes it (token level)">> ELSE <<>>
+
 Judge(r) ==
-  CASE r.kind = "run"   -> JudgeRun(r.env, r.obs, r.org)
-    [] r.kind = "strip" ->
-         \* C18: same non-comment tokens, same table, same error; no comment in the stripped output
-         (IF r.obs.outcome # r.obs2.outcome THEN <<"strip_comments changes the outcome">>
-          ELSE IF r.obs.outcome = "err" THEN (IF r.obs.err # r.obs2.err THEN <<"strip_comments changes the error">> ELSE <<>>)
-          ELSE (IF NonCmtObs(r.obs) # NonCmtObs(r.obs2) THEN <<"strip_comments changes the non-comment tokens">> ELSE <<>>)
-               \o (IF ObsDefSet(r.obs) # ObsDefSet(r.obs2) THEN <<"strip_comments changes the define table">> ELSE <<>>)
-               \o (IF \E i \in 1..Len(r.obs2.toks) : r.obs2.toks[i].c THEN <<"comment left in stripped output">> ELSE <<>>))
+  CASE r.kind = "run"    -> JudgeRun(r.env, r.obs, r.org)
+    [] r.kind = "strip"  -> IF Dev = {} THEN JudgeStripRel(r.obs, r.obs2)
+                            ELSE JudgeRun(r.env, r.obs, FALSE) \o JudgeRun([r.env EXCEPT !.strip = TRUE], r.obs2, FALSE)
+    [] r.kind = "concat" -> JudgeConcat(r.obs, r.obs2, r.obs3)
+    [] r.kind = "fix"    -> JudgeFix(r.obs, r.obs2)
     [] OTHER -> <<"unknown record kind">>
+
+DevOf(r) == IF r.kind = "run" THEN FiredDev(r.env)
+            ELSE IF r.kind = "strip" THEN FiredDev(r.env) \cup FiredDev([r.env EXCEPT !.strip = TRUE])
+            ELSE {}
 
 VARIABLES l, nbad
 Init == l = 1 /\ nbad = 0
@@ -114,8 +143,8 @@ Next ==
      IN /\ IF v = <<>> THEN nbad' = nbad
            ELSE /\ PrintT("BAD|" \o r.id \o "|" \o ToString(v))
                 /\ nbad' = nbad + 1
-        /\ (v = <<>> /\ Dev # {} /\ r.kind = "run" /\ FiredDev(r.env) # {})
-              => PrintT("BAD|DEV:" \o r.id \o "|" \o ToString(FiredDev(r.env)))
+        /\ (v = <<>> /\ Dev # {} /\ DevOf(r) # {})
+              => PrintT("BAD|DEV:" \o r.id \o "|" \o ToString(DevOf(r)))
         /\ l' = l + 1
         /\ (l = Len(Rec) => PrintT("SUMMARY|" \o ToString(l) \o "|" \o ToString(nbad')))
 Spec == Init /\ [][Next]_<<l, nbad>>
